@@ -29,6 +29,7 @@ type Clause struct {
 	where  string // file:line of the //@ line
 	fired  int    // number of obligations/assumptions generated (vacuity guard)
 	label  string
+	ownProps []string // properties written on the clause itself
 	assume bool // "assume"-style trusted clause (listed in evidence)
 }
 
@@ -85,6 +86,12 @@ type Program struct {
 	contracts map[string]*FuncContract
 	globalsAssigned map[types.Object]bool
 	errs   []string
+	bindIssues []bindIssue // contract clauses that no longer bind (reported as cannot-decide, verification continues)
+}
+
+type bindIssue struct {
+	key string
+	msg string
 }
 
 type FuncInfo struct {
@@ -243,6 +250,8 @@ func installUniverse() {
 	mk("mathmod", []types.Type{intT, intT}, intT, false)
 	mk("pure", []types.Type{anyT}, anyT, false)
 	mk("b2i", []types.Type{boolT}, intT, false)
+	mk("sameMapExcept", []types.Type{anyT, types.NewSlice(anyT)}, boolT, true) // map m equals old(m) except at the given keys
+	mk("ggets", []types.Type{types.Typ[types.String], anyT}, types.Typ[types.String], false)
 	mk("sameBlock", []types.Type{anyT, anyT}, boolT, false)
 	mk("gget", []types.Type{types.Typ[types.String], anyT}, intT, false)             // integer ghost map name[key]
 	mk("gsame", []types.Type{types.Typ[types.String]}, boolT, false)                 // ghost map unchanged since old
@@ -407,10 +416,11 @@ func parseContractLines(lines []string, wheres []string) ([]*rawBlock, error) {
 			cur = nil
 			continue
 		}
-		if lastMacro != nil && cur == nil {
+		if lastMacro != nil && cur == nil && headRe.FindStringSubmatch(t) == nil {
 			lastMacro.body += " " + t
 			continue
 		}
+		lastMacro = nil
 		if m := headRe.FindStringSubmatch(t); m != nil {
 			cur = &rawBlock{key: strings.TrimSpace(m[1]), where: wheres[i]}
 			blocks = append(blocks, cur)
@@ -808,7 +818,8 @@ func (p *Program) bindBlock(pk *packages.Package, b *rawBlock, ext bool) error {
 		if pk != nil {
 			where = pk.PkgPath
 		}
-		return fmt.Errorf("%s: contract for %q does not bind to any function in %s", b.where, b.key, where)
+		p.bindIssues = append(p.bindIssues, bindIssue{b.key, fmt.Sprintf("%s: contract for %q does not bind to any function in %s", b.where, b.key, where)})
+		return nil
 	}
 	if _, dup := p.contracts[m.FullName()]; dup {
 		return fmt.Errorf("%s: duplicate contract for %s", b.where, m.FullName())
@@ -1041,14 +1052,16 @@ func (p *Program) fillContract(fc *FuncContract, clauses []*rawClause, body *ast
 		switch rc.scope {
 		case "closure":
 			if rc.ord < 1 || rc.ord > len(clos) {
-				return fmt.Errorf("%s: %s has no closure#%d", rc.where, fc.key, rc.ord)
+				p.bindIssues = append(p.bindIssues, bindIssue{fc.key, fmt.Sprintf("%s: %s has no closure#%d", rc.where, fc.key, rc.ord)})
+				continue
 			}
 			rc.sub.where = rc.where
 			closureClauses[rc.ord] = append(closureClauses[rc.ord], rc.sub)
 			continue
 		case "loop":
 			if rc.ord < 1 || rc.ord > len(loops) {
-				return fmt.Errorf("%s: %s has no loop#%d", rc.where, fc.key, rc.ord)
+				p.bindIssues = append(p.bindIssues, bindIssue{fc.key, fmt.Sprintf("%s: %s has no loop#%d", rc.where, fc.key, rc.ord)})
+				continue
 			}
 			lc := fc.loops[rc.ord]
 			if lc == nil {
@@ -1067,20 +1080,23 @@ func (p *Program) fillContract(fc *FuncContract, clauses []*rawClause, body *ast
 			case "invariant":
 				cl, err := p.checkClause(fc, sub, rc.where, pos)
 				if err != nil {
-					return err
+					p.bindIssues = append(p.bindIssues, bindIssue{fc.key, err.Error()})
+					continue
 				}
 				lc.invariants = append(lc.invariants, cl)
 			case "step":
 				endPos := loopBody(loops[rc.ord-1]).Rbrace
 				cl, err := p.checkClause(fc, sub, rc.where, endPos)
 				if err != nil {
-					return err
+					p.bindIssues = append(p.bindIssues, bindIssue{fc.key, err.Error()})
+					continue
 				}
 				lc.steps = append(lc.steps, cl)
 			case "decreases":
 				cl, err := p.checkClause(fc, sub, rc.where, pos)
 				if err != nil {
-					return err
+					p.bindIssues = append(p.bindIssues, bindIssue{fc.key, err.Error()})
+					continue
 				}
 				lc.decreases = cl
 			case "unroll":
@@ -1111,7 +1127,8 @@ func (p *Program) fillContract(fc *FuncContract, clauses []*rawClause, body *ast
 			pos := body.Rbrace
 			cl, err := p.checkClause(fc, rc, rc.where, pos)
 			if err != nil {
-				return err
+				p.bindIssues = append(p.bindIssues, bindIssue{fc.key, err.Error()})
+				continue
 			}
 			if rc.kind == "requires" {
 				fc.requires = append(fc.requires, cl)
@@ -1127,7 +1144,8 @@ func (p *Program) fillContract(fc *FuncContract, clauses []*rawClause, body *ast
 			sub := &rawClause{kind: "callback", text: strings.TrimSpace(strings.SplitN(rc.text, "preserves", 2)[1])}
 			cl, err := p.checkClauseAny(fc, sub, rc.where, body.Rbrace)
 			if err != nil {
-				return err
+				p.bindIssues = append(p.bindIssues, bindIssue{fc.key, err.Error()})
+				continue
 			}
 			cl.label = f[0]
 			fc.callbacks = append(fc.callbacks, cl)
@@ -1143,7 +1161,8 @@ func (p *Program) fillContract(fc *FuncContract, clauses []*rawClause, body *ast
 				sub := &rawClause{kind: "modifies", text: strings.TrimSpace(part)}
 				cl, err := p.checkClauseAny(fc, sub, rc.where, body.Rbrace)
 				if err != nil {
-					return err
+					p.bindIssues = append(p.bindIssues, bindIssue{fc.key, err.Error()})
+					continue
 				}
 				fc.modifies = append(fc.modifies, cl)
 			}
@@ -1205,5 +1224,5 @@ func (p *Program) checkClauseAny(fc *FuncContract, rc *rawClause, where string, 
 	if len(props) == 0 {
 		props = fc.props
 	}
-	return &Clause{kind: rc.kind, props: props, text: rc.text, expr: expr, info: info, where: where, assume: rc.kind == "assume"}, nil
+	return &Clause{kind: rc.kind, props: props, ownProps: rc.props, text: rc.text, expr: expr, info: info, where: where, assume: rc.kind == "assume"}, nil
 }
